@@ -33,7 +33,7 @@ STUB = ['Verilog side: dsim/vsim (IEEE 1364-2005 subset event simulator written 
 ASSUMPTIONS = ['vsim reading of IEEE 1364-2005 sizing, x-propagation and scheduling (see dsim/vsim/README.md, selftest)',
                'single clock domain; divisors of Div/Mod are OR-ed with 1 (division by zero is documented as nondeterministic)',
                'designs containing rotate blocks are not emittable (generator refuses) and are kept out']
-PROBES = ['reserved_names', 'generated_after_simulation', 'generated', 'elaborated', 'shared_module_reused', 'reg_reset_value', 'memory_body', 'race_probe', 'hierarchy', 'wide_gt_64', 'transpiled_block']
+PROBES = ['underscore_names', 'reserved_names', 'generated_after_simulation', 'generated', 'elaborated', 'shared_module_reused', 'reg_reset_value', 'memory_body', 'race_probe', 'hierarchy', 'wide_gt_64', 'transpiled_block']
 
 
 def emittable_kinds():
@@ -57,7 +57,9 @@ def gen(rs, tier, index):
     d = netlist.gen_design(rng, n, comb, hier_depth=rng.choice([0, 0, 1, 2, 3]), feedback=rng.choice([0, 0.2]),
                            seq_kinds=seqk, seq_frac=rng.choice([0, 0.2, 0.4]), maxw=70)
     apply_exclusions(d, kf, rng)
-    if rng.random() < 0.2:
+    if rng.random() < 0.12:
+        netlist.underscore_names(d, rs.get('naming'))
+    elif rng.random() < 0.2:
         # naming: reserved words as wire / port / instance names (the generator renames them; behaviour must not change)
         RES = ['reg', 'wire', 'output', 'input', 'signed', 'module', 'begin', 'end', 'assign', 'always', 'integer', 'logic', 'bit']
         nr = rs.get('naming')
@@ -201,7 +203,7 @@ def cosim(scn, log, st, zero_powerup=False, collect_all=False):
     nm = d.get('names') or {}
     outs = [(r, _rtl.getValidVerilogName(nm.get(r, r.replace('.', '_')))) for r in d['outputs']]
     if nm or d.get('inst_names'):
-        st.probe('reserved_names')
+        st.probe('reserved_names' if nm or any(v in ('reg', 'wire', 'output', 'input', 'signed', 'module', 'begin', 'end', 'assign', 'always', 'integer', 'logic', 'bit') for v in d['inst_names'].values()) else 'underscore_names')
     vs = vsim.Sim(design, rng=random.Random(scn['vseed']), zero_powerup=zero_powerup, settle0=False)
     has_clk = 'clk' in design.inputs
     if has_clk:
